@@ -7,6 +7,7 @@ import (
 	"fmt"
 	"io"
 	"reflect"
+	"runtime"
 	"strings"
 	"sync"
 	"testing"
@@ -572,6 +573,11 @@ func (w *world) apply(op Op) (f *evid.Failure) {
 		}
 		churn(op.N)
 		wg.Wait()
+		// a collection between the call that produced a result and the next look at it: memory the
+		// library handed out but kept alive only through an unsafe or wrongly typed reference is
+		// freed here and reused by the calls that follow
+		runtime.GC()
+		churn(1)
 		for _, r := range w.results {
 			if _, ok := r.value.([]byte); ok {
 				w.stats.encodeThenChurn = true
